@@ -8,6 +8,6 @@ def run(ctx):
     ctx.validate("ModalTrace", shards, heap="3g")
     ctx.require_clauses(["Eigenpair", "ModeVanishesOnDof0", "Frequency", "RigidModes", "RigidMotionInvariance", "ExtraFieldsNoMass"])
     ctx.rule = ("free-vibration jobs on hex / tet / quad / quad8 bodies with seeded elastic constants, densities, boundary dictionaries and "
-                "numbers of modes; unconstrained bodies in 2D / 3D before and after a rational rotation + translation; a mixed u-p-J container")
+                "numbers of modes; multi-item pencils with the items' scale factors in every pattern of the item order; unconstrained bodies in 2D / 3D before and after a rational rotation + translation; a mixed u-p-J container")
     ctx.assumptions = ["the eigen-solver's convergence is not modelled: returned pairs are validated a posteriori (K, M re-assembled from fresh items)",
                        "fixed point: matrices 2^-16, modes 2^-20, eigenvalues 2^-12"]
